@@ -688,12 +688,18 @@ func init() {
 		if cs, ok := s.concreteString(); ok {
 			return strLit(strings.ToLower(cs))
 		}
+		if r := it.caseMapASCII(s, true); r != nil {
+			return r
+		}
 		return &StrV{T: App("tolower", SStr, it.toA(s))}
 	}
 	models["strings.ToUpper"] = func(it *Interp, a []Val) Val {
 		s := a[0].(*StrV)
 		if cs, ok := s.concreteString(); ok {
 			return strLit(strings.ToUpper(cs))
+		}
+		if r := it.caseMapASCII(s, false); r != nil {
+			return r
 		}
 		return &StrV{T: App("toupper", SStr, it.toA(s))}
 	}
@@ -999,4 +1005,28 @@ func (it *Interp) parseUintB(s *StrV, bits int) Val {
 		acc = BVBin("bvadd", BVBin("bvmul", acc, BVu(64, 10)), ZeroExt(64, BVBin("bvsub", b, BVu(8, '0'))))
 	}
 	return Tuple{acc, IfaceV{}}
+}
+
+// caseMapASCII: strings.ToLower / ToUpper byte by byte for a structured string all of whose bytes are ASCII on this path
+// (one branch on that; with a non-ASCII byte the caller falls back to the uninterpreted function).
+func (it *Interp) caseMapASCII(s *StrV, lower bool) *StrV {
+	if !isPlainB(s) {
+		return nil
+	}
+	ascii := TTrue
+	for _, b := range s.Bytes {
+		ascii = And(ascii, BVCmp("bvult", b, BVu(8, 0x80)))
+	}
+	if !it.p.branch(ascii) {
+		return nil
+	}
+	out := make([]*Term, len(s.Bytes))
+	for i, b := range s.Bytes {
+		if lower {
+			out[i] = Ite(And(BVCmp("bvuge", b, BVu(8, 'A')), BVCmp("bvule", b, BVu(8, 'Z'))), BVBin("bvor", b, BVu(8, 0x20)), b)
+		} else {
+			out[i] = Ite(And(BVCmp("bvuge", b, BVu(8, 'a')), BVCmp("bvule", b, BVu(8, 'z'))), BVBin("bvand", b, BVu(8, 0xdf)), b)
+		}
+	}
+	return &StrV{Bytes: out, IsB: s.IsB}
 }
